@@ -10,12 +10,14 @@ import LekkerVerif.Properties.C06
 import LekkerVerif.Properties.C07
 import LekkerVerif.Properties.C07Net
 import LekkerVerif.Properties.C08
+import LekkerVerif.Properties.C08Hier
 import LekkerVerif.Properties.C09
 import LekkerVerif.Properties.C10
 import LekkerVerif.Properties.C11
 import LekkerVerif.Properties.C11Hier
 import LekkerVerif.Properties.C11Params
 import LekkerVerif.Properties.C12
+import LekkerVerif.Properties.C12Hier
 import LekkerVerif.Properties.C13
 import LekkerVerif.Properties.C14
 import LekkerVerif.Properties.C15
